@@ -62,6 +62,8 @@ class System(ListeningSystem):
             args = command.split('=')
             if len(args) >= 2:  # set methods
                 cmd_name = self.commands.get(args[0])
+                if not cmd_name:
+                    continue
                 method = getattr(self, cmd_name)
                 try:
                     ans = method(float(args[1]))
@@ -69,12 +71,17 @@ class System(ListeningSystem):
                     ans = method(args[1][:-1])
             else:  # get methods (without params)
                 cmd_name = self.commands.get(args[0][:-1])
+                if not cmd_name:
+                    continue
                 method = getattr(self, cmd_name)
                 ans = method()
             if isinstance(ans, str):
                 answer += ans + ';'
-        answer = answer[:-1]
-        return answer
+        if answer:
+            answer = answer[:-1]
+            return answer
+        else:
+            return True
 
     def enable_USB_devs(self):
         self.w_USB_devs = 1
@@ -121,10 +128,10 @@ class System(ListeningSystem):
         return self.ack + self.tail
 
     def get_W_LO_RefH(self):
-        return f'{self.w_LO_refH.capitalize()}.{self.tail}'
+        return f'{str(self.w_LO_refH).capitalize()}.{self.tail}'
 
     def get_W_LO_RefV(self):
-        return f'{self.w_LO_refV.capitalize()}.{self.tail}'
+        return f'{str(self.w_LO_refV).capitalize()}.{self.tail}'
 
     def get_w_LO_status(self):
         return (f'{self.status_W_LO_PolH},'
